@@ -37,7 +37,15 @@ POST = ["results"]
 
 
 def make_history(case):
-    return configs.history_from(case, MONITORS, post=POST)
+    h = configs.history_from(case, MONITORS, post=POST)
+    if case.get("resume_after_finish"):
+        # the finished run is resumed from its final checkpoint by a fresh
+        # process (a resubmitted job) and run() is called again: the results
+        # it returns are judged like those of any other run
+        h["steps"].append(dict(h["steps"][-1]))
+        h["until_completed"] = False
+        h["stop_after_failed_final"] = True
+    return h
 
 
 def judge(case, reports, add, stats):
@@ -82,6 +90,11 @@ def strategy(ctx):
 def run(ctx):
     n = 24 if ctx.quick else 400
     cases = configs.collect(strategy(ctx), ctx.seed, n)
+    for i, c in enumerate(cases):
+        if i % 3 == 0 and not c.get("kills"):
+            c["resume_after_finish"] = True
+            c["labels"] = list(c.get("labels", [])) + [
+                "history:resumed-after-finish"]
     cases += runcheck.known_cases("C05")
     return runcheck.execute_cases(ctx, "c05", cases, make_history, judge)
 
